@@ -8,67 +8,8 @@ import checklib
 import txflow
 import vlib
 
-SPEC = txflow.make_spec("C07", "histories over 3-7 txs / 2-5 shared outpoints / 3 sources with inv, blocks (also refused ones), delay checks, clock advances, restarts, in-sync toggles; all arrival orders x sources of a 3-tx conflict pattern; confirmation of seen/unseen conflicting txs; restart at every position of a reference history; + the delay check's state write raced with a conflicting arrival (pause point in the store); distinct = distinct (cfg, ops)")
+SPEC = txflow.make_spec("C07", "histories over 3-7 txs / 2-5 shared outpoints / 3 sources with inv, blocks (also refused ones), delay checks, clock advances, restarts, in-sync toggles; all arrival orders x sources of a 3-tx conflict pattern; confirmation of seen/unseen conflicting txs; restart at every position of a reference history; + the delay check's state write raced with a conflicting arrival (pause point in the store) and the SENDING of its safe update raced with a conflicting arrival (slow first handler, second handler's order judged); distinct = distinct (cfg, ops)")
 
-
-def parse_events(ob):
-    """[1|2, txid, safe, unsafe, cancel, depth, proof, (n, outs...)]* -> list of dicts"""
-    evs, i = [], 0
-    while i < len(ob):
-        k = ob[i]
-        if k == 1:
-            n = ob[i + 7]
-            evs.append({"kind": 1, "t": ob[i + 1], "safe": ob[i + 2], "unsafe": ob[i + 3], "cancel": ob[i + 4]})
-            i += 8 + n
-        elif k == 2:
-            evs.append({"kind": 2, "t": ob[i + 1], "safe": ob[i + 2], "unsafe": ob[i + 3], "cancel": ob[i + 4]})
-            i += 7
-        elif k == 3:
-            i += 3
-        else:
-            i += 1
-    return evs
-
-
-def extra(tier, rng, workdir):
-    cfg = {"txs": [[1, [1000], 1], [2, [1000, 1001], 1], [3, [1001], 0]], "delay": txflow.DELAY}
-    cases = []
-    for first, conflict, src in ((1, 2, 1), (1, 2, 0), (2, 1, 1), (2, 3, 1)):
-        cases.append({"cfg": cfg, "ops": [["setinsync", 1], ["tx", first, 0], ["advance", 75000],
-                                          ["race_delay", first, conflict, src], ["unconf"], ["delaycheck"]]})
-    results, _ = vlib.run_harness("txflow", cases, workdir, tag="race")
-    failures = []
-    reached = 0
-    for c, r in zip(cases, results):
-        ob = r[3]
-        t = c["ops"][3][1]
-        reached += ob[1] if len(ob) > 1 else 0
-        seen_unsafe = False
-        for ev in parse_events(ob[2:]) + parse_events(r[5][1:]):
-            if ev["t"] != t:
-                continue
-            if ev["safe"] and ev["unsafe"]:
-                failures.append(rec(c, r, 3, 101, "safe and unsafe both set"))
-                break
-            if ev["unsafe"] or ev["cancel"]:
-                seen_unsafe = True
-            elif ev["safe"] and seen_unsafe:
-                failures.append(rec(c, r, 3, 103, "tx %d reported safe after it was reported unsafe: the delay check wrote back a stale copy of the state" % t))
-                break
-    return {"failures": failures, "evaluations": len(cases),
-            "coverage": {"rmw_race_scenarios": len(cases), "rmw_race_pause_point_reached": reached}}
-
-
-def rec(c, r, step, code, what):
-    return {"suite": "txflow-race", "checker": "race", "step": step, "expected": [code], "observed": r[step], "cfg": c["cfg"],
-            "ops": c["ops"], "trace": r, "what": what}
-
-
-_keyfn = SPEC["keyfn"]
-SPEC["keyfn"] = lambda rc: ("txflow:race:%s:race_delay" % (rc.get("expected") or [0])[0]) if rc.get("suite") == "txflow-race" else _keyfn(rc)
-SPEC["extra"] = extra
-SPEC["assumptions"] = [a for a in SPEC["assumptions"] if "atomicity" not in a] + [
-    "atomicity at the granularity of processUnconfirmedTx / ProcessBlock / one delay-check iteration for the THEOREMS; the code does not enforce it for the tx state store (unlocked read-modify-write): the delay-check / conflict interleaving is replayed on the real code with a pause point in the store and is recorded as a known finding"]
 
 if __name__ == "__main__":
     checklib.run_check(SPEC)
